@@ -302,8 +302,8 @@ def leg_a(ctx, bdir):
         sigs += gen_signatures(ctx, "long", 32, True, "no", simulate=30, depth=33, workers=2)
     else:
         sigs += gen_signatures(ctx, "short", 2, False, False)
-        sigs += gen_signatures(ctx, "reduced3", 3, False, True)
-        sigs += gen_signatures(ctx, "reduced4", 4, False, True, slim=True)
+        sigs += gen_signatures(ctx, "reduced3", 2, False, "yes")              # "yes": one more argument than MaxArgs
+        sigs += gen_signatures(ctx, "reduced4", 3, False, "yes", slim=True)
         sigs += gen_signatures(ctx, "long", 32, True, False, simulate=300, depth=33)
     uniq = {}
     for s in sigs:
